@@ -506,3 +506,30 @@ benign(
 )
 benign("B-total-copies-rewritten", ["C03"], (OPS, "    total_copies = 1 + buffer_copies.read + 1 + 1 + buffer_copies.write", "    total_copies = 3 + buffer_copies.read + buffer_copies.write"))
 benign("B-inline-get-results", ["C03", "C06"], (PBW, "def get_results_in_different_scope(out_coords: list[int], *, config: BlockwiseSpec):", "def get_results_in_different_scope(out_coords: list[int], *, config: BlockwiseSpec):\n    # renamed helper semantics unchanged"))
+
+# ---------------------------------------------------------------- C05 / C06 / C11
+RANDOMPY = "cubed/random.py"
+mutant("M37-region-without-proxy-chunks", ["C05"], "WRITE-REGION-1", (PBW, "        out_chunk_key = key_to_slices(\n            out_coords_tuple, write_proxy.array, write_proxy.chunks\n        )", "        out_chunk_key = key_to_slices(out_coords_tuple, write_proxy.array)"))
+mutant("M38-augmented-store", ["C05", "C06"], "WRITE-REGION-1", (PBW, "            write_proxy.open()[out_chunk_key] = result", "            write_proxy.open()[out_chunk_key] += result"))
+mutant("M38b-store-into-read-proxy", ["C05", "C10"], "WRITE-REGION-1", (PBW, "            write_proxy.open()[out_chunk_key] = result", "            list(config.reads_map.values())[0].open()[out_chunk_key] = result"))
+mutant("M38c-region-from-other-coords", ["C05"], "WRITE-REGION-1", (PBW, "        out_chunk_key = key_to_slices(\n            out_coords_tuple, write_proxy.array, write_proxy.chunks\n        )", "        out_chunk_key = key_to_slices(\n            (0,) * len(out_coords_tuple), write_proxy.array, write_proxy.chunks\n        )"))
+mutant("M39-proxy-chunks-from-storage", ["C05"], "WRITE-GRID-1", (PBW, "        write_proxies[target_names[i]] = CubedArrayProxy(ta, chunksize)", "        write_proxies[target_names[i]] = CubedArrayProxy(ta, ta.chunks)"))
+mutant("M40-no-numblocks-guard", ["C05"], "WRITE-GRID-1", (PBW, "            if numblocks != numblocks0:\n                raise ValueError(\n                    f\"All outputs must have matching number of blocks in each dimension. Chunks specified: {chunkss}\"\n                )", "            pass"))
+mutant("M40b-tasks-from-input-grid", ["C05", "C13"], "WRITE-GRID-1", (PBW, "    mappable = output_blocks if output_blocks is not None else ChunkKeys(chunks_normal)", "    mappable = output_blocks if output_blocks is not None else ChunkKeys(normalize_chunks(arrays[0].chunks, shape=arrays[0].shape, dtype=arrays[0].dtype))"), also=("COUNT-1",))
+mutant("M41-no-shards-guard", ["C05", "C11"], "TARGET-COMPAT-1", (OPS, "                warn(warn_msg, stacklevel=2)\n                source = source.rechunk(target.shards)", "                warn(warn_msg, stacklevel=2)"))
+mutant("M43-unseeded-generator", ["C06"], "TASK-RNG-1", (RANDOMPY, "    rg = Generator(Philox(key=root_seed + stream_id))", "    rg = Generator(Philox())"))
+mutant("M43b-seed-from-time", ["C06"], "TASK-PURE-1", (RANDOMPY, "    rg = Generator(Philox(key=root_seed + stream_id))", "    import time\n    rg = Generator(Philox(key=int(time.time())))"), also=("TASK-RNG-1",))
+mutant("M43c-stream-id-dropped", ["C06"], "TASK-RNG-1", (RANDOMPY, "    stream_id = block_id_to_offset(block_id, numblocks)\n", "    stream_id = block_id_to_offset(block_id[:1], numblocks[:1])\n"))
+mutant("M44-write-into-input-block", ["C06", "C10"], "TASK-PURE-1", (OPS, "                out[out_select] = ai[chunk_select]", "                ai[chunk_select] = out[out_select]"))
+mutant("M45-block-func-module-cache", ["C06"], "TASK-PURE-1", (OPS, "def _arg_func(a, **kwargs):\n    # pass through\n    return {\"i\": a[\"i\"], \"v\": a[\"v\"]}", "_ARG_CACHE = {}\n\n\ndef _arg_func(a, **kwargs):\n    # pass through\n    global _ARG_CACHE\n    _ARG_CACHE = {\"i\": a[\"i\"], \"v\": a[\"v\"]}\n    return _ARG_CACHE"))
+mutant("M45b-block-func-mutates-input-dict", ["C06"], "TASK-PURE-1", (OPS, "def _arg_aggregate(a, axis=None):\n    # just return index values\n    return a[\"i\"]", "def _arg_aggregate(a, axis=None):\n    # just return index values\n    a[\"v\"] = None\n    return a[\"i\"]"))
+mutant("M45c-task-spawns-thread", ["C06", "C07"], "TASK-PURE-1", (PBW, "            result = backend_array_to_numpy_array(result)\n            write_proxy.open()[out_chunk_key] = result", "            result = backend_array_to_numpy_array(result)\n            import threading\n            threading.Thread(target=write_proxy.open().__setitem__, args=(out_chunk_key, result)).start()"), also=("WRITE-REGION-1",))
+mutant("M65-no-region-alignment-check", ["C11"], "STORE-GUARD-1", (OPS, "            if (sl.start is not None and sl.start % cs != 0) or (\n                sl.stop is not None and sl.stop % cs != 0 and sl.stop != shape[i]\n            ):", "            if False:"))
+mutant("M65b-alignment-start-only", ["C11"], "STORE-GUARD-1", (OPS, "            if (sl.start is not None and sl.start % cs != 0) or (\n                sl.stop is not None and sl.stop % cs != 0 and sl.stop != shape[i]\n            ):", "            if sl.start is not None and sl.start % cs != 0:"))
+mutant("M65c-no-shape-check", ["C11"], "STORE-GUARD-1", (OPS, "        if source.shape != indexer.shape:\n            raise ValueError(\n                f\"Source array shape {source.shape} does not match region shape {indexer.shape}\"\n            )\n", ""))
+mutant("M65d-len-check-after-build", ["C11"], "STORE-GUARD-1", (OPS, "    if len(sources) != len(targets):\n        raise ValueError(\n            f\"Different number of sources ({len(sources)}) and targets ({len(targets)})\"\n        )\n", ""))
+mutant("M65e-store-skips-pairs", ["C11"], "STORE-EAGER-1", (OPS, "        array = _store_array(source, target, region=region)\n        arrays.append(array)", "        array = _store_array(source, target, region=region)\n        if target is not None:\n            arrays.append(array)"))
+mutant("M65f-store-computes-first-only", ["C11"], "STORE-EAGER-1", (OPS, "        compute_arrays(\n            *arrays, executor=executor, _return_in_memory_array=False, **kwargs\n        )", "        compute_arrays(\n            *arrays[:1], executor=executor, _return_in_memory_array=False, **kwargs\n        )"))
+mutant("M65g-fresh-branch-returns-source", ["C11"], "STORE-PAIR-1", (OPS, "            return blockwise(\n                identity,\n                ind,\n                source,\n                ind,\n                dtype=source.dtype,\n                align_arrays=False,\n                target_store=target,\n                fusable_with_successors=False,\n                **blockwise_kwargs,\n            )", "            blockwise(\n                identity,\n                ind,\n                source,\n                ind,\n                dtype=source.dtype,\n                align_arrays=False,\n                target_store=target,\n                fusable_with_successors=False,\n                **blockwise_kwargs,\n            )\n            return source"))
+benign("B-block-func-counter-only", ["C06"], (OPS, "def _arg_func(a, **kwargs):\n    # pass through\n", "def _arg_func(a, **kwargs):\n    # pass through\n    tmp = dict(a)\n    tmp[\"seen\"] = True\n"))
+benign("B-task-body-helper-rename", ["C05", "C06"], (PBW, "    results = get_results_in_different_scope(out_coords, config=config)", "    results = get_results_in_different_scope(out_coords, config=config)\n    n_written = 0"))
